@@ -388,6 +388,40 @@ impl FreeList {
     }
 }
 
+/// Verification hooks: build a free list from its portions and read them back.
+#[cfg(nomt_verif)]
+impl FreeList {
+    pub fn verif_from_portions(portions: Vec<(u32, Vec<u32>)>) -> FreeList {
+        let portions: Vec<(PageNumber, Vec<PageNumber>)> = portions
+            .into_iter()
+            .map(|(pn, pns)| (PageNumber(pn), pns.into_iter().map(PageNumber).collect()))
+            .collect();
+        let (len, fragmented) = len_and_fragmented(&portions);
+        FreeList {
+            pop: false,
+            portions,
+            released_portions: vec![],
+            fragmented,
+            len,
+        }
+    }
+
+    pub fn verif_portions(&self) -> Vec<(u32, Vec<u32>)> {
+        self.portions
+            .iter()
+            .map(|(pn, pns)| (pn.0, pns.iter().map(|pn| pn.0).collect()))
+            .collect()
+    }
+
+    pub fn verif_decode_page(page: &[u8]) -> (u32, Vec<u32>) {
+        let view = FreeListPageRef(page);
+        let items = (0..view.item_count() as usize)
+            .map(|i| view.item(i).0)
+            .collect();
+        (view.prev_pn().0, items)
+    }
+}
+
 fn len_and_fragmented(portions: &[(PageNumber, Vec<PageNumber>)]) -> (usize, bool) {
     match portions.last() {
         None => (0, false),
